@@ -24,7 +24,7 @@ from onnx_ir import external_data as ed
 from mc import common
 
 COMPONENTS = [".", "..", "data.bin", "sub", "d2.bin", "link_in", "link_out", "dir_out", "dir_in", "secret.bin", "outside", "base",
-              "base-evil", "x.bin", "hard_out", "hard_in", "", "missing"]
+              "base-evil", "x.bin", "hard_out", "hard_in", "", "missing", "link_hard_out"]
 
 _OPENS: list = []
 _WATCH = [False]
@@ -64,6 +64,8 @@ def make_tree(root):
     os.symlink("sub", os.path.join(b, "dir_in"))
     os.link(os.path.join(root, "outside", "s2.bin"), os.path.join(b, "hard_out"))
     os.link(os.path.join(b, "data2.bin"), os.path.join(b, "hard_in"))
+    os.symlink("hard_out", os.path.join(b, "link_hard_out"))  # an allowed in-directory symlink in front of a hard link to an outside file
+    os.symlink("hard_in", os.path.join(b, "link_hard_in"))
     os.symlink("base", os.path.join(root, "baselink"))
     # inside names that also exist outside, to make ".." traversals land on real files
     w(os.path.join(root, "data.bin"), "ROOTDATA")
@@ -108,7 +110,7 @@ def extra_locations(root):
     return [os.path.join(b, "data.bin"), os.path.join(root, "outside", "secret.bin"), "/etc/hostname", b + "/../outside/secret.bin",
             "data.bin/", "sub//d2.bin", "sub/./d2.bin", "./data.bin", "sub/../data.bin", "sub/../../outside/secret.bin", "../base/data.bin",
             "../base-evil/x.bin", "..//outside/secret.bin", "dir_out/secret.bin", "dir_in/d2.bin", "dir_in/../data.bin", "dir_out/../base/data.bin",
-            "link_out/", "hard_out", "hard_in", "sub", ".", "", "..", "data.bin\x00x" if False else "data.bin x"]
+            "link_out/", "hard_out", "hard_in", "link_hard_out", "link_hard_in", "sub/../link_hard_out", "sub", ".", "", "..", "data.bin\x00x" if False else "data.bin x"]
 
 
 class _Timeout(Exception):
@@ -303,13 +305,50 @@ def _work(task):
                                 pass
         elif kind == "load":
             # a model loaded from a file gets the model's directory as base directory, whatever the spelling
-            for loc in ("data.bin", "../outside/secret.bin", "link_out", "hard_out", "dir_out/secret.bin", "sub/d2.bin"):
+            def all_ext(model):
+                out = []
+                for gph in [model.graph] + list(model.graph.subgraphs()):
+                    for val in gph.initializers.values():
+                        if isinstance(val.const_value, ir.ExternalTensor):
+                            out.append(val.const_value)
+                for nd in model.graph.all_nodes():
+                    for a in nd.attributes.values():
+                        if a.type == ir.AttributeType.TENSOR and isinstance(a.value, ir.ExternalTensor):
+                            out.append(a.value)
+                return out
+
+            def cond(xv, then_g, name):
+                eg = ir.Graph([], [], nodes=[], name=f"{name}_else")
+                en = ir.Node("", "Identity", [xv], name=f"{name}_en")
+                en.outputs[0].name = f"{name}_eo"
+                eg.append(en)
+                eg.outputs.append(en.outputs[0])
+                nd = ir.Node("", "If", [xv], [ir.AttrGraph("then_branch", then_g), ir.AttrGraph("else_branch", eg)], name=name)
+                nd.outputs[0].name = f"{name}_y"
+                return nd
+
+            placements = ("main", "body_with_node", "empty_body", "deep_empty_body", "node_attribute")
+            for loc, place in [(l, pl) for l in ("data.bin", "../outside/secret.bin", "link_out", "hard_out", "link_hard_out", "dir_out/secret.bin", "sub/d2.bin") for pl in placements]:
                 x = ir.Value(name="x")
-                node = ir.Node("", "Identity", [x], name="n")
-                node.outputs[0].name = "y"
                 ext = ir.ExternalTensor(loc, 0, 4, ir.DataType.UINT8, shape=ir.Shape([4]), name="w", base_dir="")
                 v = ir.Value(name="w", const_value=ext)
-                g = ir.Graph([x], [node.outputs[0]], nodes=[node], initializers=[v], name="g", opset_imports={"": 20})
+                inits = []
+                if place == "main":
+                    node = ir.Node("", "Identity", [x], name="n")
+                    inits = [v]
+                elif place == "body_with_node":
+                    bn = ir.Node("", "Identity", [v], name="bn")
+                    bn.outputs[0].name = "bo"
+                    node = cond(x, ir.Graph([], [bn.outputs[0]], nodes=[bn], initializers=[v], name="then_g"), "n")
+                elif place == "empty_body":
+                    node = cond(x, ir.Graph([], [v], nodes=[], initializers=[v], name="then_g"), "n")
+                elif place == "deep_empty_body":
+                    inner = cond(x, ir.Graph([], [v], nodes=[], initializers=[v], name="inner_then"), "inner")
+                    node = cond(x, ir.Graph([], [inner.outputs[0]], nodes=[inner], name="then_g"), "n")
+                else:
+                    node = ir.Node("", "Constant", [], [ir.AttrTensor("value", ext)], name="n")
+                node.outputs[0].name = "y"
+                g = ir.Graph([x], [node.outputs[0]], nodes=[node], initializers=inits, name="g", opset_imports={"": 20})
                 m = ir.Model(g, ir_version=10)
                 ir.save(m, os.path.join(root, "base", "m.onnx"))
                 os.symlink("m.onnx", os.path.join(root, "base", "mlink.onnx")) if not os.path.lexists(os.path.join(root, "base", "mlink.onnx")) else None
@@ -322,16 +361,16 @@ def _work(task):
                     n += 1
                     try:
                         lm = ir.load(path)
-                        lt = next(iter(lm.graph.initializers.values())).const_value
+                        lt = all_ext(lm)[0]
                     except Exception as e:  # noqa: BLE001
-                        found.setdefault(f"load_raises|{sname}", {"base": sname, "location": loc, "entry": "ir.load", "clause": "load_raises", "detail": f"{type(e).__name__}: {e}"[:120]})
+                        found.setdefault(f"load_raises|{sname}|{place}", {"base": sname, "location": loc, "entry": "ir.load", "clause": "load_raises", "detail": f"{type(e).__name__}: {e}"[:120]})
                         continue
                     bd = os.fspath(lt.base_dir)
                     if not bd or os.path.realpath(bd) != realbase:
-                        found.setdefault(f"loaded_model_base_dir_is_not_the_model_directory|{sname}", {"base": sname, "location": loc, "entry": "ir.load", "clause": "loaded_model_base_dir_is_not_the_model_directory", "detail": repr(bd)})
+                        found.setdefault(f"loaded_model_base_dir_is_not_the_model_directory|{sname}|{place}", {"base": sname, "location": loc, "entry": "ir.load", "clause": "loaded_model_base_dir_is_not_the_model_directory", "detail": repr(bd)})
                     want = reference(realbase, loc)
                     for ename, fn in eps[:5]:
-                        t2 = next(iter(ir.load(path).graph.initializers.values())).const_value
+                        t2 = all_ext(ir.load(path))[0]
                         try:
                             got = fn(t2)
                         except BaseException:  # noqa: BLE001
@@ -343,7 +382,7 @@ def _work(task):
                         if got is not None:
                             accepted += 1
                             if want is None:
-                                found.setdefault(f"read_escaped_after_load|{sname}|{ename}", {"base": sname, "location": loc, "entry": ename, "clause": "read_escaped_after_load", "detail": repr(got[:8])})
+                                found.setdefault(f"read_escaped_after_load|{sname}|{ename}|{place}", {"base": sname, "location": loc, "entry": ename, "clause": "read_escaped_after_load", "detail": repr(got[:8])})
                         else:
                             rejected += 1
                 os.chdir(root)
